@@ -310,6 +310,17 @@ class StoreDriver(object):
                             reader.get_recording(rid)
                         except Exception as ex:  # noqa
                             mm('lookup', idx, 'fetchable', repr(ex), 'listed id %r cannot be fetched' % rid)
+                    if k == 'list' and not e['random']:
+                        # the metadata iterator is the same lookup, yielding the metadata of the listed recordings
+                        try:
+                            metas = list(reader.iter_recordings_metadata(e['cat'], metadata=flt or None, limit=limit))
+                            want = [saved[ids.index(rid)][1] for rid in got] if len(set(got)) == len(got) else None
+                            if want is not None and (len(metas) != len(want) or
+                                                     sorted(repr(sorted(dict(m).items(), key=repr)) for m in metas) !=
+                                                     sorted(repr(sorted(w.items(), key=repr)) for w in want)):
+                                mm('lookup', idx, want, metas, 'iter_recordings_metadata differs from the metadata of the listed recordings')
+                        except Exception as ex:  # noqa
+                            mm('lookup', idx, 'metadata of the listed recordings', repr(ex), 'iter_recordings_metadata raised')
         finally:
             cleanup()
         return out
